@@ -295,6 +295,12 @@ func (vc *FuncVC) constVal(c *ssa.Const) *Val {
 	case constant.String:
 		code := IntLit(vc.W.strCode(constant.StringVal(c.Value)))
 		vc.assume(Eq(vc.strLen(code), IntLit(int64(len(constant.StringVal(c.Value))))))
+		if sv := constant.StringVal(c.Value); len(sv) <= 32 && !vc.declared["strconst:"+sv] {
+			vc.declared["strconst:"+sv] = true
+			for k := 0; k < len(sv); k++ {
+				vc.assume(Eq(vc.strByte(code, IntLit(int64(k))), IntLit(int64(sv[k]))))
+			}
+		}
 		return &Val{T: code, GoType: t}
 	case constant.Int:
 		n, _ := new(big.Int).SetString(c.Value.ExactString(), 10)
